@@ -61,6 +61,10 @@ func checkValue(val string) bool {
 func checkKeyRemain(key string) bool {
 	// ( lcalpha / DIGIT / "_" / "-"/ "*" / "/" )
 	for _, v := range key {
+		if v > 0x7f {
+			// Not ASCII: byte(v) below would alias it onto a legal character.
+			return false
+		}
 		if isAlphaNum(byte(v)) {
 			continue
 		}
